@@ -230,6 +230,18 @@ class SimpleClassifier(Classifier):
         )
 
 
+def _contains_type_var(t: Type, type_var: Type) -> bool:
+    """Checks whether the given type variable appears in type `t`."""
+    if t.is_type_var():
+        return t == type_var
+    if t.is_wildcard():
+        return t.bound is not None and _contains_type_var(t.bound, type_var)
+    if t.is_parameterized():
+        return any(_contains_type_var(t_arg, type_var)
+                   for t_arg in t.type_args)
+    return False
+
+
 class TypeParameter(AbstractType):
 
     def __init__(self, name: str, variance=None, bound: Type = None):
@@ -262,7 +274,9 @@ class TypeParameter(AbstractType):
         if bound == other:
             return True
         if hasattr(bound, "get_type_variables"):
-            return other in bound.get_type_variables(None)
+            # Only the enclosed type variables matter here (not their
+            # bounds, whose computation would need a builtin factory).
+            return _contains_type_var(bound, other)
         return False
 
     def get_bound_rec(self, factory):
